@@ -260,7 +260,17 @@ def build(rng: Random, *, max_len: int = 120, base: str | None = None, ops: tupl
         lines = gateway_traffic(rng, lines, meta)
     if "zone-update" in chosen:
         lines = lines + zone_update_tail(rng, lines, meta)
-    return History(retime(lines), meta)
+    lines = retime(lines)
+    if ops is None and len(lines) > 12 and rng.random() < 0.12:
+        # a gateway that has been up for a day or two: what it learned first (the configuration packets at the head of
+        # a log live for a day, and count as expired only after two) is 25-47 hours older than the rest
+        k = rng.randrange(3, max(4, len(lines) // 3))
+        hours = rng.choice((25, 30, 40, 47))
+        back = _dt.timedelta(hours=hours)
+        lines = [((_dt.datetime.fromisoformat(d) - back).isoformat(timespec="microseconds"), f) for d, f in lines[:k]] + lines[k:]
+        meta["ops"].append("old-head")
+        meta["old_head"] = {"packets": k, "hours": hours}
+    return History(lines, meta)
 
 
 def dev_hex(dev_id: str) -> str:
